@@ -20,7 +20,7 @@ from pathlib import Path
 
 ID = "C14"
 MODEL = ("Model.C14_finder", "run_C14")
-COQ_TARGETS = ["Proofs/C14_finder.vo"]
+COQ_TARGETS = ["Proofs/C14_finder.vo", "Proofs/C14_order.vo", "Proofs/C14_import.vo", "Proofs/C14_pth.vo", "Proofs/C14_ns.vo", "Proofs/C14_bypath.vo", "Proofs/C14_nsload.vo", "Proofs/C14_nsinv.vo", "Proofs/C14_nsorder.vo"]
 
 EXT_SUFFIX = ".cpython-312-x86_64-linux-gnu.so"
 
@@ -32,6 +32,7 @@ EXT_SUFFIX = ".cpython-312-x86_64-linux-gnu.so"
 #                                                  ids: for a *.pth file, its lines (see PTH_LINES)
 # A .pth line is an int (absolute path of the root directory with that id), or a string written verbatim.
 # ---------------------------------------------------------------------------------------------------------------
+CWD_LINE = "@cwd:"      # "@cwd:3" in a case = the path of root directory 3 written relative to the current directory
 NS_DECL = "__path__ = __import__('pkgutil').extend_path(__path__, __name__)\n"
 
 
@@ -71,7 +72,13 @@ def materialise(case, base: Path):
                 if name.endswith(".pth"):
                     lines = []
                     for l in pth:
-                        lines.append(str(root_dir(base, l)) if isinstance(l, int) else l)
+                        if isinstance(l, int):
+                            lines.append(str(root_dir(base, l)))
+                        elif l.startswith(CWD_LINE):
+                            # a relative line that exists relative to the current directory only
+                            lines.append(os.path.relpath(root_dir(base, int(l[len(CWD_LINE):])), os.getcwd()))
+                        else:
+                            lines.append(l)
                     p.write_text("".join(x + "\n" for x in lines))
                 elif name.endswith(".pyc"):
                     p.write_bytes(EMPTY_PYC)          # valid byte code of an empty module
@@ -224,7 +231,7 @@ def impl_find(case, base: Path, order):
         return ["err", type(e).__name__]
 
 
-def impl_load(case, base: Path, order, by_path: Path | None = None):
+def impl_load(case, base: Path, order, by_path: Path | None = None, want_subs: list | None = None):
     """GriffeLoader(search_paths, allow_inspection=False).load(name or path) -> canonical tree."""
     import griffe
     try:
@@ -239,6 +246,9 @@ def impl_load(case, base: Path, order, by_path: Path | None = None):
                 return ["notfound"]
             while top.parent is not None:
                 top = top.parent
+            if want_subs is not None:
+                # the finder stage on its own: the ordered list finder.submodules() hands to the loader
+                want_subs.append([[list(parts), rel(base, path)] for parts, path in loader.finder.submodules(top)])
         return ["ok", tree_of(top, base)]
     except Watchdog:
         return ["err", "Timeout"]
@@ -362,9 +372,13 @@ def abstract_pth_lines(lines, known_ids):
                 out.append([0, l])
             continue
         t = l.strip()
+        if t.startswith(CWD_LINE):
+            if int(t[len(CWD_LINE):]) in known_ids:
+                out.append([1, int(t[len(CWD_LINE):])])      # exists relative to the cwd only
+            continue
         m = _REL_LINE.match(t)
         if m and int(m.group(1)) in known_ids:
-            out.append([1, int(m.group(1))])
+            out.append([0, int(m.group(1))])                 # relative to the directory of the .pth file (a root directory)
         # comments, blank lines, non-existing paths: dropped by both Griffe and CPython
     return out
 
@@ -585,9 +599,13 @@ def gen_case(rng, allow_pth=True):
                     lines.append("")
                 elif r < 0.92:
                     lines.append("/nonexistent/dir")
+                elif r < 0.97:
+                    lines.append(f"../d{rng.choice(extra)}")          # relative to the directory of the .pth file
                 else:
-                    lines.append(f"../d{rng.choice(extra)}")
+                    lines.append(f"{CWD_LINE}{rng.choice(extra)}")     # relative to the current directory only (F6)
             name = rng.choice(["a", "b", "c", "zz", "_x"]) + ".pth"
+            if rng.random() < 0.05:
+                name = rng.choice([".pth", ".x.pth"])      # hidden names: ".pth" has no pathlib suffix (outside the domain), ".x.pth" has
             listing = dirs[h][1]
             if not any(n == name for n, _ in listing):
                 listing.append([name, F(0, lines)])
@@ -667,17 +685,15 @@ def evaluate(cases, scratch: Path, model, rng, n_random=1, tag="b", perms_fn=Non
         rep = {"case": case, "base": base, "perms": []}
         for label, pc in (perms_fn(case) if perms_fn else perms_of(case, rng, n_random)):
             om = order_map(pc, base)
-            rep["perms"].append({"label": label, "case": pc, "find": impl_find(pc, base, om), "load": impl_load(pc, base, om)})
-        # by path: the top-level directory / file of the first search path that has one
-        rep["by_path"] = None
-        for i in case["search"]:
-            names = {n: x for n, x in dict((n, x) for n, x in next(l for j, l in case["dirs"] if j == i)).items()}
-            target = None
-            if TOP in names and names[TOP][0] == "d":
-                target = root_dir(base, i) / TOP
-            if target is not None:
-                rep["by_path"] = [str(target.relative_to(base)), impl_load(case, base, order_map(case, base), by_path=target)]
-                break
+            subs = []
+            rep["perms"].append({"label": label, "case": pc, "find": impl_find(pc, base, om), "load": impl_load(pc, base, om, want_subs=subs),
+                                 "subs": subs[0] if subs else None})
+        # by path (finder._module_name_path / _top_module_name): every top-level directory called like the package, in
+        # search directories and elsewhere, its __init__ files, some nested directories and files, a missing path
+        rep["by_paths"] = []
+        for tgt in bypath_targets(case):
+            target = root_dir(base, tgt[0]).joinpath(*tgt[1])
+            rep["by_paths"].append({"target": tgt, "impl": impl_load(case, base, order_map(case, base), by_path=target)})
         reports.append(rep)
     # model: find + load for every permutation, spec functions once
     for rep in reports:
@@ -687,8 +703,11 @@ def evaluate(cases, scratch: Path, model, rng, n_random=1, tag="b", perms_fn=Non
             model_in.append(["load", 0, a])
             model_in.append(["gaps", a])
             model_in.append(["domain", a])
+            model_in.append(["subs", a])
+            model_in.append(["nsok", a])
         a = abstract_case(rep["case"])
         model_in += [["paths", a], ["pyfind", a], ["pywalk", a], ["gaps", a]]
+        model_in += [["bypath", a, bp["target"]] for bp in rep["by_paths"]]
     out = iter(model(model_in))
     for rep in reports:
         for p in rep["perms"]:
@@ -696,7 +715,11 @@ def evaluate(cases, scratch: Path, model, rng, n_random=1, tag="b", perms_fn=Non
             p["m_load"] = canon_model_load(next(out))
             p["m_gaps"] = next(out)
             p["m_domain"] = next(out)
+            p["m_subs"] = next(out)
+            p["m_nsok"] = next(out)
         rep["m_paths"], rep["m_pyfind"], rep["m_pywalk"], rep["m_gaps"] = next(out), next(out), next(out), next(out)
+        for bp in rep["by_paths"]:
+            bp["model"] = next(out)
     # CPython
     jobs = []
     for rep in reports:
@@ -715,6 +738,31 @@ def evaluate(cases, scratch: Path, model, rng, n_random=1, tag="b", perms_fn=Non
     for rep, o in zip(reports, model(mi)):
         rep["m_pyimport"] = dict(zip(rep["queries"], o))
     return reports
+
+
+def bypath_targets(case):
+    tg = []
+    for i, l in case["dirs"]:
+        for n, x in l:
+            if n == TOP and x[0] == "d":
+                tg.append([i, [TOP]])
+                nd = nf = 0
+                for m, y in x[1]:
+                    if y[0] == "f" and m.startswith("__init__."):
+                        tg.append([i, [TOP, m]])
+                    elif y[0] == "d" and m != "__pycache__" and nd < 1:
+                        nd += 1
+                        tg.append([i, [TOP, m]])
+                        inits = [k for k, z in y[1] if z[0] == "f" and k.startswith("__init__.")]
+                        if inits:
+                            tg.append([i, [TOP, m, inits[0]]])
+                    elif y[0] == "f" and m.endswith(".py") and nf < 1:
+                        nf += 1
+                        tg.append([i, [TOP, m]])
+            elif n == TOP + ".py" and x[0] == "f":
+                tg.append([i, [n]])
+    tg.append([case["dirs"][0][0], ["nonexistent"]])
+    return tg[:10]
 
 
 def direct_checks(rep):
@@ -740,9 +788,14 @@ def direct_checks(rep):
             fails.append(("order-find", {"order": p["label"], "a": first["find"], "b": p["find"]}))
         if p["load"] != first["load"]:
             fails.append(("order-tree", {"order": p["label"], "a": first["load"], "b": p["load"]}))
-    # D6: by name vs by path of the top-level directory
-    if rep["by_path"] is not None and rep["by_path"][1] != first["load"]:
-        fails.append(("name-vs-path", {"path": rep["by_path"][0], "by_name": first["load"], "by_path": rep["by_path"][1]}))
+    # D6: by name vs by path of a top-level directory of a search directory (any of them, not only the winning one)
+    eff = first["find"][1] if first["find"][0] == "ok" else []
+    for bp in rep.get("by_paths", []):
+        i, comps = bp["target"]
+        if comps == [rep["case"]["name"]] and i in eff:
+            cnt("by-path-compared")
+            if bp["impl"] != first["load"]:
+                fails.append(("name-vs-path", {"path": bp["target"], "by_name": first["load"], "by_path": bp["impl"]}))
     # Griffe vs CPython, for the listing order of the case (all orders when the orders disagree)
     for p in (rep["perms"] if any(k.startswith("order") for k, _ in fails) else rep["perms"][:1]):
         f, t = p["find"], p["load"]
@@ -795,6 +848,11 @@ def direct_checks(rep):
             q = oq.get(name)
             if kind == "file" and files[0][1][-1] == "__init__.pyi" and len(parts) > 1:
                 out_of_scope.add(name)          # a stub-only package is a namespace portion (or nothing) for CPython
+        # the walker's own answers say which walked packages are compiled (needed when the model's walk is unavailable: search mode)
+        for wname, ispkg, spec in o["walk"]:
+            wspec = canon_oracle_spec(base, spec)
+            if wspec[0] == "err" or (wspec[0] in ("pkg", "mod") and is_compiled(wspec[1])):
+                out_of_scope.add(wname)
 
         def scoped(name):
             ps = name.split(".")
@@ -867,70 +925,32 @@ def direct_checks(rep):
 # ---------------------------------------------------------------------------------------------------------------
 def classify_failure(kind, detail, gaps, loaded_cls=None):
     """-> finding id, "scope" (outside the stated domain, counted), or None (new violation).
-    Repaired findings (F1 plain-module parent, F2 .pth order, F4 dot-file, F9 compiled __init__ stem) have no classifier."""
+    Repaired findings (F1 plain-module parent, F2 .pth order, F3/F10 regular sub-package shadows the other portions,
+    F4 dot-file, F5 dotted stubs name, F7 transitive .pth, F8 first portion's module wins, F9 compiled __init__ stem)
+    have no classifier."""
     g = set(gaps)
     if kind == "paths":
-        for tag, fid in (("F6", "C14-F6"), ("F7", "C14-F7")):
-            if tag in g:
-                return fid
-    elif kind == "order-tree":
-        if "F5" in g:
-            return "C14-F5"
-    elif kind == "find":
-        if "nsdecl-mixed" in g:
+        if "F6" in g:
+            return "C14-F6"
+        if "pth-dot-name" in g:
             return "scope"
-    elif kind == "loaded-not-importable":
-        if "F3" in g and detail["cpython"][0] in ("notfound", "ns"):
-            return "C14-F3"
-        if "F8" in g:
-            return "C14-F8"
-        if "F10" in g:
-            return "C14-F10"
-        if "nsdecl-mixed" in g:
-            return "scope"
-    elif kind == "walked-not-loaded":
-        if "F8" in g:
-            return "C14-F8"
-        if "F10" in g:
-            return "C14-F10"
+    elif kind in ("find", "loaded-not-importable", "walked-not-loaded"):
         if "nsdecl-mixed" in g:
             return "scope"
     return None
 
 
 def py_gaps(case):
-    """Coarse Python mirror of the model's gap verdicts; used only when the extracted model is unavailable (search)."""
+    """Python mirror of the model's gap verdicts; used only when the extracted model is unavailable (search)."""
     g = set()
-
-    def rec(l, inpc):
-        if not inpc:
-            stems = {}
-            for n, x in l:
-                if x[0] == "f" and n.endswith(".pyi"):
-                    st = n[:-4].split(".")[0]
-                    stems[st] = stems.get(st, 0) + 1
-            if any(v > 1 for v in stems.values()):
-                g.add("F5")
-        for n, x in l:
-            if x[0] == "d":
-                rec(x[1], inpc or n == "__pycache__")
-    targets = set()
     for i, l in case["dirs"]:
-        rec(l, False)
         for n, x in l:
             if x[0] == "f" and n.endswith(".pth") and len(n) > 4:
-                for z in x[2]:
-                    if isinstance(z, str) and _REL_LINE.match(z.strip()):
-                        g.add("F6")
-                        targets.add(int(_REL_LINE.match(z.strip()).group(1)))
-                    elif isinstance(z, int):
-                        targets.add(z)
-    for i, l in case["dirs"]:
-        if i in targets and any(x[0] == "f" and n.endswith(".pth") for n, x in l):
-            g.add("F7")
+                if any(isinstance(z, str) and z.strip().startswith(CWD_LINE) for z in x[2]):
+                    g.add("F6")
+            if x[0] == "f" and n == ".pth":
+                g.add("pth-dot-name")
     tops = [x for i, l in case["dirs"] for n, x in l if n == case["name"] and x[0] == "d"]
-    if len(tops) > 1:
-        g.update(("F3", "F8", "F10"))
     if any(m == "__init__.py" and y[0] == "f" and y[1] for x in tops for m, y in x[1]):
         g.add("nsdecl-mixed")
     return sorted(g)
@@ -944,17 +964,7 @@ def _pkg(*entries):
 
 
 WITNESSES = {
-    "C14-F3": ({"dirs": [[0, [["aa", D([["sub", _pkg(["a.py", F()])]])]]],
-                         [1, [["aa", D([["sub", D([["x.py", F()], ["other", _pkg(["z.py", F()])]])]])]]]], "search": [0, 1], "name": "aa"},
-               "loaded-not-importable"),
-    "C14-F5": ({"dirs": [[0, [["aa", _pkg(["r.pyi", F()], ["r.x.pyi", F()])]]]], "search": [0], "name": "aa"}, "order-tree"),
-    "C14-F6": ({"dirs": [[0, [["a.pth", F(0, ["../d1"])]]], [1, [["aa", _pkg(["m.py", F()])]]]], "search": [0], "name": "aa"}, "paths"),
-    "C14-F7": ({"dirs": [[0, [["a.pth", F(0, [1])]]], [1, [["b.pth", F(0, [2])]]], [2, [["aa", _pkg(["m.py", F()])]]]], "search": [0], "name": "aa"},
-               "paths"),
-    "C14-F8": ({"dirs": [[0, [["aa", D([["n.py", F()], ["x.py", F()]])]]], [1, [["aa", D([["n.py", F()]])]]]], "search": [0, 1], "name": "aa"},
-               "loaded-not-importable"),
-    "C14-F10": ({"dirs": [[0, [["aa", D([["sub", D([["early.py", F()]])]])]]], [1, [["aa", D([["sub", _pkg(["late.py", F()])]])]]]],
-                 "search": [0, 1], "name": "aa"}, "loaded-not-importable"),
+    "C14-F6": ({"dirs": [[0, [["a.pth", F(0, [CWD_LINE + "1"])]]], [1, [["aa", _pkg(["m.py", F()])]]]], "search": [0], "name": "aa"}, "paths"),
 }
 
 # witnesses of the repaired findings: ordinary corpus layouts now, they must PASS (no classifier is left for them)
@@ -964,9 +974,20 @@ FIXED_WITNESSES = {
     "C14-F2": ({"dirs": [[0, [["b.pth", F(0, [1])], ["a.pth", F(0, [2])]]],
                          [1, [["aa", _pkg(["one.py", F()])]]], [2, [["aa", _pkg(["two.py", F()])]]]], "search": [0], "name": "aa"},
                "order-find"),
+    "C14-F3": ({"dirs": [[0, [["aa", D([["sub", _pkg(["a.py", F()])]])]]],
+                         [1, [["aa", D([["sub", D([["x.py", F()], ["other", _pkg(["z.py", F()])]])]])]]]], "search": [0, 1], "name": "aa"},
+               "loaded-not-importable"),
     "C14-F4": ({"dirs": [[0, [["aa", _pkg(["m.py", F()], [".x.pyi", F()])]]]], "search": [0], "name": "aa"}, "load-raises"),
+    "C14-F5": ({"dirs": [[0, [["aa", _pkg(["r.pyi", F()], ["r.x.pyi", F()])]]]], "search": [0], "name": "aa"}, "order-tree"),
+    "C14-F6-pth-dir": ({"dirs": [[0, [["a.pth", F(0, ["../d1"])]]], [1, [["aa", _pkg(["m.py", F()])]]]], "search": [0], "name": "aa"}, "paths"),
+    "C14-F7": ({"dirs": [[0, [["a.pth", F(0, [1])]]], [1, [["b.pth", F(0, [2])]]], [2, [["aa", _pkg(["m.py", F()])]]]], "search": [0], "name": "aa"},
+               "paths"),
+    "C14-F8": ({"dirs": [[0, [["aa", D([["n.py", F()], ["x.py", F()]])]]], [1, [["aa", D([["n.py", F()]])]]]], "search": [0, 1], "name": "aa"},
+               "loaded-not-importable"),
     "C14-F9": ({"dirs": [[0, [["aa", D([["sub", D([["deep", D([["__init__" + EXT_SUFFIX, F()]])]])]])]]],
                          [1, [["aa", D([["sub", D([["b.py", F()]])]])]]]], "search": [0, 1], "name": "aa"}, "loaded-not-importable"),
+    "C14-F10": ({"dirs": [[0, [["aa", D([["sub", D([["early.py", F()]])]])]]], [1, [["aa", D([["sub", _pkg(["late.py", F()])]])]]]],
+                 "search": [0, 1], "name": "aa"}, "loaded-not-importable"),
 }
 
 
@@ -1013,6 +1034,12 @@ def targeted_cases():
         mk([[["aa", D([["sub", D([["deep", D([["__init__.abi3.so", F()]])]])]])]], [["aa", D([["sub", D([["b.py", F()]])]])]]], [0, 1]),
         mk([[["aa", D([["__init__.py", F(1)], ["m.py", F()]])]], [["aa", D([["__init__.py", F(1)], ["n.py", F()]])]]], [0, 1]),   # pkgutil style
         mk([[["aa", D([["__init__.py", F(1)], ["m.py", F()]])]], [["aa", _pkg(["n.py", F()])]]], [0, 1]),                         # mixed
+        # which portion provides a regular sub-package is decided top-down over ALL portions
+        mk([[["aa", D([["sub", D([["deep", _pkg(["a.py", F()])]])]])]], [["aa", D([["sub", _pkg(["deep", _pkg(["x.py", F()])], ["late.py", F()])]])]]], [0, 1]),
+        mk([[["aa", D([["sub", D([["deep", _pkg(["a.py", F()])], ["e.py", F()]])]])]], [["aa", D([["sub", D([["deep", _pkg(["x.py", F()])], ["late.py", F()]])]])]]], [0, 1]),
+        mk([[["aa", D([["n.py", F()], ["n", D([["z.py", F()]])]])]], [["aa", D([["n", _pkg(["x.py", F()])]])]], [["aa", D([["n", D([["y.py", F()]])]])]]], [0, 1, 2]),
+        mk([[["aa", D([["m", D([["__init__.pyi", F()], ["n.pyi", F()]])]])]], [["aa", D([["m", _pkg(["n.py", F()])], ["m.py", F()]])]]], [0, 1]),   # stubs do not make a provider
+        mk([[["aa", D([["x.cpython-311-x86_64-linux-gnu.so", F()], ["m.py", F()]])]], [["aa", D([["x.py", F()], ["m.py", F()], ["m.pyi", F()]])]]], [0, 1]),   # a foreign-ABI binary does not take the name
         # shapes that once needed a decision in this harness (regression corpus)
         mk([[["aa", D([["sub.py", F()], ["m", D([["m", D([["m.py", F()]])]])]])]], [["aa", D([["sub", D([["sub.pyi", F()]])]])]]], [0, 1]),   # plain module in one portion, directory in the other
         mk([[["aa", D([["deep", D([["m.pyi", F()], ["__init__.pyi", F()]])]])]], [["aa", D([["deep", D([["m.py", F()]])]])]]], [0, 1]),          # stub-only sub-package shadows the next portion
@@ -1024,6 +1051,9 @@ def targeted_cases():
         mk([[["a.pth", F(0, [1, "# comment", "", "/nonexistent", 1])]], [["aa", _pkg()]]], [0]),
         mk([[["a.pth", F(0, [1])], ["aa", D([["m.py", F()]])]], [["aa", D([["n.py", F()]])]]], [0]),
         mk([[["a.pth", F(0, [2])]], [["aa", _pkg(["one.py", F()])]], [["aa", _pkg(["two.py", F()])]]], [0, 1]),
+        mk([[[".x.pth", F(0, [1])]], [["aa", _pkg(["one.py", F()])]]], [0]),                          # hidden .pth file with a stem
+        mk([[[".pth", F(0, [1])]], [["aa", _pkg(["one.py", F()])]]], [0]),                            # ".pth": no pathlib suffix (scope)
+        mk([[["a.pth", F(0, ["../d1", 2])], ["b.pth", F(0, [1])]], [["c.pth", F(0, [3])], ["aa", D([["m.py", F()]])]], [["aa", D([["n.py", F()]])]], [["aa", _pkg()]]], [0]),   # relative line, not transitive
     ]
     return cs
 
@@ -1118,38 +1148,48 @@ def gen_ns_case(rng):
 # ---------------------------------------------------------------------------------------------------------------
 # The check
 # ---------------------------------------------------------------------------------------------------------------
-LEVEL_TEXT = ("Coq theorems over an executable model of finder.py/loader.py discovery, for all layouts, search-path lists and listing orders: "
-              "(1) find_package = CPython's PathFinder/FileFinder precedence on source-form layouts, the three exclusions shown necessary; "
-              "(2) find_package is listing-order independent; (3) the loader's fold over any depth-sorted submodule list is characterised key by key "
-              "(a dotted name is present iff every proper prefix is taken by a package and it has a loadable file; value = merge of its candidates); "
-              "(4) hence the static load of a regular package of any depth is invariant under every permutation of every directory listing unless two files "
-              "claim one module name; (5) loaded => importable: every module loaded below a regular package of any depth is the file CPython's import system "
-              "resolves that dotted name to (or a stub where CPython has no regular module), on source-form trees without same-name clashes (F5), hypotheses in "
-              "decidable form evaluated by the extracted model on every generated layout; (6) static loading is total (only a directory named like a module file "
-              "errors) and the .pth loop's fuel always suffices. Four defects were repaired (F1, F2, F4, F9: their refutations are gone and the theorems hold of the "
-              "repaired model); six remain known, each refuted by a machine-checked witness with a decidable shape predicate. "
-              "The model is tied to the code by differential runs (Griffe under wrapped os.scandir/os.listdir vs model vs CPython in a subprocess).")
+LEVEL_TEXT = ("Coq theorems (20, all closed under the global context) over an executable model of finder.py / loader.py discovery, for all layouts, search-path lists "
+              "and listing orders: (1) find_package = CPython's PathFinder/FileFinder precedence on source-form layouts (three exclusions shown necessary), also end to end on "
+              "the .pth-extended search paths; find_package is listing-order independent; (2) the .pth extension of the search paths IS site.addsitedir's (modulo the cwd-fallback "
+              "line kept by the repair of F6 and a file called exactly '.pth') and is listing-order independent (sorted() = insertion sort, insertions of different names commute); "
+              "(3) the loader's fold over ANY depth-sorted submodule list is characterised key by key, for a regular top module AND for a namespace package over several portions "
+              "(files: merge of the candidates iff the chain of parents holds; namespace sub-packages: created exactly in the namespace zone, recording the directories passed through); "
+              "(4) os.walk's files-first contract is a theorem of the model, and the WHOLE static load (.pth extension, find_package, iter_submodules over one package or over several "
+              "namespace portions, the fold) is invariant under every permutation of every directory listing with NO side condition besides unique names per directory (the former "
+              "no_clash hypothesis is gone; for namespace sub-packages the recorded directories are compared as a set), the finder stage yielding the same set of entries under every "
+              "listing order; and (5) every module loaded below a regular package is the file CPython resolves that "
+              "dotted name to, or a stub where CPython has no regular module, on source-form trees, again without no_clash; (6) the repaired iter_submodules over a list of portions "
+              "never yields two source files of one name and suffix from different portions, nor anything from inside a folder that another portion provides as a regular package "
+              "(the shapes of the former findings F8, F3, F10), for every universe and every list of portions; (7) load by the path of a top-level directory (or of its __init__ file) "
+              "of any search directory = load by name (finder._module_name_path / _top_module_name are in the model); (8) static loading is total. "
+              "Ten defects were repaired in /repo (F1-F5, F7-F10 and F6 for lines relative to the .pth file); one remains known (F6, cwd fallback, pinned by an upstream test), refuted by a "
+              "machine-checked witness with a decidable shape predicate. The model is tied to the code by differential runs (Griffe under wrapped os.scandir/os.listdir vs model vs CPython "
+              "in a subprocess) on four observables per listing order: search paths + top-level answer, the ORDERED finder.submodules() list, the loaded tree, and loads by path.")
 LEVEL_NOTE = ("Static mode only (allow_inspection=False): compiled names are discovered but not loaded; modules whose CPython spec is a compiled file are out of scope. "
-              "NOT proved, only checked by the direct Griffe-vs-CPython evaluation on generated layouts: 'walk_packages found => loaded', classification against CPython, "
-              "namespace packages over several portions (theorems 3-5 are for regular top-level packages; the namespace machinery seen/skip and namespace-parent creation "
-              "is modelled and correspondence-checked, and is where findings F3/F8/F10 live), agreement of the .pth extension with site.addsitedir outside F6/F7 and its "
-              "listing-order independence (sorted() is modelled by an insertion sort, no theorem), load-by-name vs load-by-path (_module_name_path/_top_module_name are "
-              "not modelled; compared on the implementation for top-level directories). The order-invariance theorem excludes, through no_clash, the module-next-to-package "
-              "case (foo.py and foo/__init__.py), which holds by os.walk's files-first contract and is covered by the exhaustive clash family only. "
-              "Editable-install .pth import lines, find_stubs_package and zip imports are not modelled.")
-RULE = ("targeted layouts (witness of every finding, every precedence decision); exhaustive same-name clash family (subsets of "
-        "m.py/m.pyi/m.so/m.pyc/m/ with and without __init__, every permutation of the package listing); seeded random layouts over 1-3 search paths "
-        "+ .pth-added paths (regular/namespace/stub/pkgutil-style/module/compiled top-level forms, nested packages to depth 4, junk, __pycache__, "
-        "dotted file names, dot-files, directories with dotted names at every level holding modules and sub-packages); seeded namespace-heavy layouts (2-3 portions with overlapping sub-directories). Each layout is run under its own, "
-        "the sorted, the reversed and random listing orders. non-trivial = at least 4 file-system nodes; distinct by canonical layout")
+              "NOT proved, only checked by the direct Griffe-vs-CPython evaluation on generated layouts: 'walk_packages found => loaded', classification against CPython, and "
+              "'loaded => importable' for namespace packages over several portions (the fold over a namespace top is characterised key by key and the finder stage is proved free of the "
+              "F8/F3/F10 shapes and listing-order independent, but the link to CPython's resolution over several portions is not made in Coq). Python's str/pathlib operations are re-implemented for the names that occur; the "
+              "abstraction layout -> model term and the .pth line classification (absolute / relative to the .pth file / relative to the cwd only / ignored by both) are harness code. "
+              "load(Path) is modelled for paths below root directories of the universe; a path that makes _top_module_name insert a non-root directory (a namespace folder above the target) or "
+              "that is a single-file top-level module is outside the model (counted). Editable-install .pth import lines, find_stubs_package, zip imports, the `seen` argument of "
+              "iter_submodules (public API, no longer used by the loader) are not modelled.")
+RULE = ("targeted layouts (witnesses of all eleven findings, every precedence decision, the provider decision top-down, hidden .pth names, relative .pth lines); exhaustive same-name clash "
+        "family (subsets of m.py/m.pyi/m.so/m.pyc/m/ with and without __init__, every permutation of the package listing); seeded random layouts over 1-3 search paths + .pth-added paths "
+        "(regular/namespace/stub/pkgutil-style/module/compiled top-level forms, nested packages to depth 4, junk, __pycache__, dotted file names, dot-files, directories with dotted names at "
+        "every level holding modules and sub-packages, .pth lines absolute / relative to the .pth file / relative to the cwd / comments / missing); seeded namespace-heavy layouts (2-3 portions "
+        "with overlapping sub-directories: about half of them have the F8/F3/F10 shapes in the raw scan). Each layout is run under its own, the sorted, the reversed and random listing orders, "
+        "and loaded by up to 10 paths (top-level directories in and outside the search directories, __init__ files, nested directories and files, a missing path). "
+        "non-trivial = at least 4 file-system nodes; distinct by canonical layout")
 TRUSTED = ["abstraction: the generated layout is both written to disk and passed to the model; listing order is imposed by wrapping os.scandir/os.listdir",
-           "pth lines are pre-classified by the harness (absolute existing dir / relative existing dir / ignored by both sides)"]
+           "pth lines are pre-classified by the harness (absolute existing dir / relative to the .pth file / relative to the cwd only / ignored by both sides)"]
 ASSUMPTIONS = ["allow_inspection=False; files are empty (or a pkgutil namespace declaration); byte-code files are valid, extension modules are fake",
                "modules whose CPython spec is a compiled file (or whose import needs a fake binary) are out of scope of the direct comparison",
                "a stub-only package (__init__.pyi without __init__.py) is accepted as the property's stub-only clause; it and everything below it is not compared with CPython (which sees a namespace portion)",
                "compiled file names carry a suffix CPython 3.12 recognises or none at all below namespace portions (an unrecognised tag on a compiled __init__ is outside the generated domain)",
                "pkgutil-style namespaces are compared only when every portion declares the namespace",
-               "entries named like modules have the expected type (no directory called x.py, no extension-less file called like the package)"]
+               "entries named like modules have the expected type (no directory called x.py, no extension-less file called like the package)",
+               "a file called exactly '.pth' is outside the domain (site of CPython 3.12.1 reads it, pathlib gives it no suffix; newer CPythons skip hidden .pth files): generated, counted as scope",
+               "the portions of a namespace package are distinct directories; search directories are not nested in one another"]
 
 FINDING_KINDS = ("paths", "order-find", "order-tree", "find", "load-raises", "loaded-not-importable", "walked-not-loaded",
                  "classification", "name-vs-path", "find-raises")
@@ -1181,6 +1221,35 @@ def process(ctx, reports, stream):
                 ctx.tie_failure("correspondence", "find_package/.pth (model) vs ModuleFinder.find_spec", {"order": p["label"], "impl": p["find"], "model": p["m_find"]}, p["case"])
             if p["load"] != p["m_load"]:
                 ctx.tie_failure("correspondence", "load (model) vs GriffeLoader.load", {"order": p["label"], "impl": p["load"], "model": p["m_load"]}, p["case"])
+            # the finder stage: the ORDERED list of (name parts, file) that finder.submodules() hands to the loader
+            if p.get("subs") is not None and p.get("m_subs") is not None:
+                ctx.count("finder_stage_compared")
+                ctx.observe("submodule_entries", min(len(p["subs"]), 12))
+                if p["subs"] != p["m_subs"]:
+                    ctx.tie_failure("correspondence", "iter_submodules/submodules (model) vs ModuleFinder.submodules",
+                                    {"order": p["label"], "impl": p["subs"], "model": p["m_subs"]}, p["case"])
+            # C14_namespace_first_module_wins / _regular_subpackage_shadows, evaluated: never on the yielded list;
+            # how often the raw scan of the portions has these shapes tells whether the generator reaches them
+            ns = p.get("m_nsok")
+            if isinstance(ns, list) and len(ns) == 4:
+                ctx.observe("ns_yielded_shapes", f"dup={ns[0]} shadow={ns[1]}")
+                ctx.observe("ns_raw_scan_shapes", f"dup={ns[2]} shadow={ns[3]}")
+                if ns[0] or ns[1]:
+                    ctx.tie_failure("correspondence", "model contradicts C14_namespace_* theorems", {"order": p["label"], "nsok": ns}, p["case"])
+        # (C) load by path: model (module_name_path / top_module_name / get_member) vs GriffeLoader.load(Path)
+        for bp in rep.get("by_paths", []):
+            m = bp.get("model")
+            if m is None:
+                continue
+            if m == ["unsupported"]:
+                ctx.observe("by_path", "outside-model")
+                continue
+            mm = canon_model_load(m)
+            eff0 = rep["perms"][0]["find"][1] if rep["perms"][0]["find"][0] == "ok" else []
+            ctx.observe("by_path_directory", "search-directory" if bp["target"][0] in eff0 else "not-searched(inserted-first)")
+            ctx.observe("by_path", mm[0] + (":" + mm[1] if mm[0] == "err" else "") + ("" if len(bp["target"][1]) == 1 else ":nested"))
+            if bp["impl"] != mm:
+                ctx.tie_failure("correspondence", "load_by_path (model) vs GriffeLoader.load(Path)", {"target": bp["target"], "impl": bp["impl"], "model": mm}, case)
         # (O) model of CPython vs CPython
         o = rep["oracle"]
         base = rep["base"]
@@ -1261,7 +1330,7 @@ def null_model(values):
     """Stand-in when the extracted model is unavailable: implementation vs CPython only."""
     out = []
     for v in values:
-        out.append({"find": None, "load": None, "paths": [None, None], "pyfind": None, "pywalk": [], "gaps": None, "pyimport": None}[v[0]])
+        out.append({"find": None, "load": None, "paths": [None, None], "pyfind": None, "pywalk": [], "gaps": None, "pyimport": None, "subs": None, "nsok": None, "domain": None, "bypath": None}[v[0]])
     return out
 
 
@@ -1322,7 +1391,7 @@ def evaluate_no_model(cases, scratch, rng):
             if v[0] == "pyimport":
                 out.append([None] * len(v[2]))
             else:
-                out.append({"find": None, "load": ["none"], "paths": [None, None], "pyfind": None, "pywalk": [], "gaps": None, "domain": None}[v[0]])
+                out.append({"find": None, "load": ["none"], "paths": [None, None], "pyfind": None, "pywalk": [], "gaps": None, "domain": None, "subs": None, "nsok": None, "bypath": None}[v[0]])
         return out
     return evaluate(cases, scratch, fake, rng, n_random=1, tag="s")
 
